@@ -3,7 +3,7 @@ package props
 import (
 	"fmt"
 	"go/token"
-	"go/types"
+	"sort"
 	"strings"
 
 	"ndndcheck/core"
@@ -16,7 +16,6 @@ func C18(c *core.Ctx) {
 	c.Explain = "Narrow claim. Convergence, fixed points and bounded exchange counts over all topologies and delivery orders cannot be decided from the shape of the code and are NOT decided. Decided structural necessary conditions: (R18.1) Router.ribUpdate conforms clause by clause to dv/SPEC.md 'Update Processing': the cost passed to Rib.Set is entry.Cost+1, or — only on the path asserting that the advertised next hop is this router and OtherCost < infinity — entry.OtherCost+1; Rib.Set is unreachable when cost ≥ infinity; the destination and neighbour arguments are the entry's destination and the advertising neighbour; the neighbour's column is reset before the loop; (R18.2) every call that changes the RIB (Set outside start-up, RemoveNextHop, DirtyResetNextHop) reaches Rib.Prune before the function returns, and Prune deletes exactly on the edge asserting best cost == infinity — so Advert(), which does not filter, can only list finite destinations; (R18.3) removing a dead neighbour is followed by RemoveNextHop for it; (R18.4) RibEntry.refresh selects best and second best with a deterministic tie-break (cost, then hop id) and demotes the previous best to second best."
 	c.RuleText = "instances: the Rib.Set call of ribUpdate and its cost phi edges, every RIB-mutating call site in package dv/dv (discovered), Prune's delete, the selection branches of refresh. Non-trivial = has a phi edge, branch edge or path to decide."
 	p := c.P
-	sl := &core.Slicer{P: p}
 	inf := int64(16)
 	if v, ok := lookupConst(p, "dv/config", "CostInfinity"); ok {
 		inf = v
@@ -40,11 +39,15 @@ func C18(c *core.Ctx) {
 				root, _ := core.FieldPath(a[0])
 				entry = root
 			}
+			// the loop may sit in a worker split off ribUpdate: its neighbour parameter is
+			// then the wrapper's
+			restoreRoot := core.WithRoot(ru)
 			okArgs := entry != nil && isFieldLoad(a[1], ns, "Name")
 			if okArgs {
-				ls := sl.Leaves(entry)
-				okArgs = len(ls) == 1 && ls[0].Val == ns && strings.Join(ls[0].Via, "") == ".Advert.Entries[]"
+				ls := (&core.Slicer{P: p, Root: ru}).Leaves(entry)
+				okArgs = len(ls) == 1 && (ls[0].Val == ns || core.Same(ls[0].Val, ns)) && strings.Join(ls[0].Via, "") == ".Advert.Entries[]"
 			}
+			restoreRoot()
 			c.Decide(okArgs, "R18.1", "set-arguments", c.Pos(ci), "Set(entry.Destination.Name, neighbour.Name, cost) for entries of the neighbour's advertisement", "Rib.Set is not called with the advertised destination and the advertising neighbour")
 			// cost phi edges
 			isSelf := atomCallTrue("nexthop-is-self", func(cl *ssa.Call) bool {
@@ -302,92 +305,7 @@ func C18(c *core.Ctx) {
 
 	// ---- R18.4 refresh
 	if rf := c.Fn("R18.4", "dv/table", "RibEntry", "refresh"); rf != nil {
-		// comparisons: cost < lowestK, cost == lowestK, hop < nextHopK — on loop-carried phis
-		count := map[string]int{}
-		core.InstrsDeep(rf, func(in ssa.Instruction) {
-			b, ok := in.(*ssa.BinOp)
-			if !ok {
-				return
-			}
-			_, isPhiY := core.Strip(b.Y).(*ssa.Phi)
-			if !isPhiY || !core.InLoop(b.Block()) {
-				return
-			}
-			switch b.Op {
-			case token.LSS:
-				count["<"]++
-			case token.EQL:
-				count["=="]++
-			}
-		})
-		c.Decide(count["<"] >= 4 && count["=="] >= 2, "R18.4", "deterministic-tie-break", p.Pos(rf.Pos()), fmt.Sprintf("selection uses cost < best, and on cost == best the hop id (comparisons %v)", count), fmt.Sprintf("RibEntry.refresh does not break cost ties by hop id for both best and second best (comparisons found %v): with equal costs the chosen next hop depends on map iteration order", count))
-		// demotion: among the loop-carried values there is a best P (compared `cost < P` and
-		// replaced by that cost) and another carried value Q that receives the old P
-		demote := false
-		var hdrPhis []*ssa.Phi
-		core.Instrs(rf, func(in ssa.Instruction) {
-			if ph, ok := in.(*ssa.Phi); ok && loopHeader(ph.Block()) == ph.Block() {
-				hdrPhis = append(hdrPhis, ph)
-			}
-		})
-		flowsFrom := func(q *ssa.Phi, src ssa.Value) bool {
-			seen := map[ssa.Value]bool{}
-			var walk func(v ssa.Value) bool
-			walk = func(v ssa.Value) bool {
-				v = core.Strip(v)
-				if v == src {
-					return true
-				}
-				ph, ok := v.(*ssa.Phi)
-				if !ok || seen[v] || ph == q {
-					return false
-				}
-				seen[v] = true
-				for _, e := range ph.Edges {
-					if walk(e) {
-						return true
-					}
-				}
-				return false
-			}
-			for _, e := range q.Edges {
-				if walk(e) {
-					return true
-				}
-			}
-			return false
-		}
-		isBest := func(pp *ssa.Phi) bool {
-			// some comparison `v < pp` whose v also flows into pp
-			for _, r := range core.Refs(pp) {
-				b, ok := r.(*ssa.BinOp)
-				if !ok || (b.Op != token.LSS && b.Op != token.GTR) {
-					continue
-				}
-				v := b.X
-				if b.X == ssa.Value(pp) {
-					v = b.Y
-				}
-				if _, isPhi := core.Strip(v).(*ssa.Phi); isPhi {
-					continue
-				}
-				if flowsFrom(pp, core.Strip(v)) {
-					return true
-				}
-			}
-			return false
-		}
-		for _, pp := range hdrPhis {
-			if !isBest(pp) {
-				continue
-			}
-			for _, q := range hdrPhis {
-				if q != pp && q.Block() == pp.Block() && types.Identical(q.Type(), pp.Type()) && flowsFrom(q, pp) && isBest(q) {
-					demote = true
-				}
-			}
-		}
-		c.Decide(demote, "R18.4", "previous-best-becomes-second", p.Pos(rf.Pos()), "when a new best is found the previous best becomes second best", "RibEntry.refresh loses the previous best when a better next hop is found (second-best cost/poison-reverse information is wrong)")
+		c18Selection(c, rf)
 	}
 	// ---- R18.5 every change of an entry's cost column is followed by refresh() of that
 	// entry (or marks it dirty for Prune) before the next entry is visited or the
@@ -484,4 +402,184 @@ func C18(c *core.Ctx) {
 	}
 	c.Floor("R18.5", "writes to RibEntry.costs", nW, 3)
 
+}
+
+// c18Selection (R18.4): RibEntry.refresh keeps, in loop-carried variables, the best and the
+// second-best (cost, hop) of the cost map. A "slot" is a pair of loop variables that adopt
+// the candidate cost and the candidate hop in the same block. For every slot the path
+// condition of that block, in disjunctive normal form (through short-circuit operators and
+// predicate helpers such as preferHop), must be the strict lexicographic order on
+// (cost, hop) against THAT slot's own variables: every disjunct has cost < slotCost, or
+// cost == slotCost and hop < slotHop. And when the best slot adopts a candidate, the
+// second-best slot receives the previous best.
+func c18Selection(c *core.Ctx, rf *ssa.Function) {
+	p := c.P
+	// candidate (hop, cost): key and value of the range over the cost map
+	var candHop, candCost ssa.Value
+	core.Instrs(rf, func(in ssa.Instruction) {
+		if e, ok := in.(*ssa.Extract); ok {
+			if nx, isN := e.Tuple.(*ssa.Next); isN && !nx.IsString {
+				switch e.Index {
+				case 1:
+					candHop = e
+				case 2:
+					candCost = e
+				}
+			}
+		}
+	})
+	if candHop == nil || candCost == nil {
+		c.Und("R18.4", "selection-loop", p.Pos(rf.Pos()), "no range over a map with key and value found in RibEntry.refresh")
+		return
+	}
+	var hdr []*ssa.Phi
+	core.Instrs(rf, func(in ssa.Instruction) {
+		if ph, ok := in.(*ssa.Phi); ok && loopHeader(ph.Block()) == ph.Block() && len(*ph.Referrers()) > 0 {
+			hdr = append(hdr, ph)
+		}
+	})
+	// the header variable a merged value belongs to
+	owner := map[ssa.Value]*ssa.Phi{}
+	for _, h := range hdr {
+		seen := map[ssa.Value]bool{}
+		var mark func(v ssa.Value)
+		mark = func(v ssa.Value) {
+			v = core.Strip(v)
+			ph, ok := v.(*ssa.Phi)
+			if !ok || seen[v] || ph == h {
+				return
+			}
+			if loopHeader(ph.Block()) == ph.Block() {
+				return // another loop variable
+			}
+			seen[v] = true
+			owner[ph] = h
+			for _, e := range ph.Edges {
+				mark(e)
+			}
+		}
+		for i, e := range h.Edges {
+			if h.Block().Dominates(h.Block().Preds[i]) {
+				mark(e)
+			}
+		}
+	}
+	// adoption edges: block B hands candidate / another loop variable to variable H
+	type adopt struct {
+		h   *ssa.Phi
+		val ssa.Value
+	}
+	byBlock := map[*ssa.BasicBlock][]adopt{}
+	note := func(h *ssa.Phi, ph *ssa.Phi) {
+		for i, e := range ph.Edges {
+			e = core.Strip(e)
+			pred := ph.Block().Preds[i]
+			if ph == h && !h.Block().Dominates(pred) {
+				continue // the initial value
+			}
+			if e == ssa.Value(h) || owner[e] == h {
+				continue // unchanged / merged further up
+			}
+			byBlock[pred] = append(byBlock[pred], adopt{h, e})
+		}
+	}
+	for _, h := range hdr {
+		note(h, h)
+	}
+	for m, h := range owner {
+		note(h, m.(*ssa.Phi))
+	}
+	type slot struct {
+		cost, hop *ssa.Phi
+		at        *ssa.BasicBlock
+	}
+	var slots []slot
+	for b, as := range byBlock {
+		var sc, sh *ssa.Phi
+		for _, a := range as {
+			if a.val == candCost {
+				sc = a.h
+			}
+			if a.val == candHop {
+				sh = a.h
+			}
+		}
+		if sc != nil && sh != nil {
+			slots = append(slots, slot{sc, sh, b})
+		}
+	}
+	sort.Slice(slots, func(i, j int) bool { return slots[i].at.Index < slots[j].at.Index })
+	c.Floor("R18.4", "selection slots (best, second best) in RibEntry.refresh", len(slots), 2)
+	if len(slots) == 0 {
+		return
+	}
+	body := slots[0].cost.Block() // loop header
+	inLoop := func(b *ssa.BasicBlock) bool { return b == body || loopHeader(b) == body || body.Dominates(b) }
+	isV := func(v ssa.Value, want ssa.Value) bool {
+		v = core.StripConv(v)
+		return v == want || core.Same(v, want)
+	}
+	for i, sl := range slots {
+		dnf, restore, ok := core.ReachDNF(body, sl.at, inLoop)
+		bad := ""
+		if !ok || len(dnf) == 0 {
+			bad = "cannot enumerate the path conditions of the adoption"
+		}
+		kinds := map[string]bool{}
+		for _, conj := range dnf {
+			relC, relH := core.RelAll, core.RelAll
+			for _, l := range conj {
+				if !l.IsCmp {
+					continue
+				}
+				switch {
+				case isV(l.X, candCost) && isV(l.Y, sl.cost):
+					relC &= l.Rel()
+				case isV(l.Y, candCost) && isV(l.X, sl.cost):
+					relC &= core.SwapRel(l.Rel())
+				case isV(l.X, candHop) && isV(l.Y, sl.hop):
+					relH &= l.Rel()
+				case isV(l.Y, candHop) && isV(l.X, sl.hop):
+					relH &= core.SwapRel(l.Rel())
+				}
+			}
+			switch {
+			case relC == core.RelLT:
+				kinds["cost<"] = true
+			case relC == core.RelEQ && relH == core.RelLT:
+				kinds["cost==,hop<"] = true
+			default:
+				bad = fmt.Sprintf("a path adopts the candidate under cost %s slot cost and hop %s slot hop", relC, relH)
+			}
+		}
+		restore()
+		if bad == "" && !(kinds["cost<"] && kinds["cost==,hop<"]) {
+			bad = "the adoption lacks the lower-cost case or the tie-break case"
+		}
+		c.Decide(bad == "", "R18.4", fmt.Sprintf("deterministic-tie-break:slot%d", i+1), p.Pos(rf.Pos()),
+			"the candidate replaces this slot exactly when cost < slot cost, or cost == slot cost and hop < slot hop (compared with the slot's own variables)",
+			"RibEntry.refresh does not select by the strict order (cost, hop) against the slot's own best ("+bad+"): with equal costs the chosen next hop depends on map iteration order, and refresh reports changes forever")
+	}
+	// demotion: a slot whose adoption block also hands its previous (cost, hop) to another slot
+	demote := false
+	for _, s1 := range slots {
+		for _, s2 := range slots {
+			if s1.cost == s2.cost {
+				continue
+			}
+			okC, okH := false, false
+			for _, a := range byBlock[s1.at] {
+				if a.h == s2.cost && a.val == ssa.Value(s1.cost) {
+					okC = true
+				}
+				if a.h == s2.hop && a.val == ssa.Value(s1.hop) {
+					okH = true
+				}
+			}
+			if okC && okH {
+				demote = true
+			}
+		}
+	}
+	c.Decide(demote, "R18.4", "previous-best-becomes-second", p.Pos(rf.Pos()), "when a new best is found the previous best (cost and hop) becomes second best", "RibEntry.refresh loses the previous best when a better next hop is found (second-best cost/poison-reverse information is wrong)")
 }
